@@ -220,6 +220,14 @@ CLAIMS = {
             "defects were repaired; two vitess-level ones are recorded.",
             "Statements the parser rejects are outside the property. Trusted: the reflective dump.",
             "spec-generated grammar universe (TLA+ trees rendered by TLC) replayed through the real parser/printer with a tree-equality oracle", "DESIGN.md 6/C30"),
+    "C28": ("model_checking",
+            "PluginVersions.tla defines semantic-version precedence (prereleases, multi-digit components), constraint satisfaction (none, *, =, >=, >, <, <=, ^, ~, with the "
+            "library's prerelease rule), Discover, Resolve (highest installed version that satisfies) and Select (highest matching manifest version; highest release "
+            "without a constraint). PluginCases.tla generates trees, configurations, manifests and the expected outcome under the TLC seed. The real code is observed "
+            "through PluginManager.ListInstalledPlugins in-process, through the binary's start-up (octosql.yml + dummy plugin executables recording which version was "
+            "started) and through `octosql plugin install` against a loopback HTTP repository with the manifest in shuffled order. One genuine defect (dashed names) repaired.",
+            "Constraint semantics of Masterminds/semver v1.5 as stated in the spec; ^ only for major >= 1. Trusted: directory/HTTP fixtures.",
+            "TLA+ spec + TLC-generated configurations replayed on the real plugin manager, CLI start-up and installer", "DESIGN.md 6/C28"),
 }
 
 NA_DEFAULT = "check not built yet (work in progress; will be claimed once its TLA+ spec and conformance harness are committed)"
